@@ -229,4 +229,114 @@ example :
         [.cEnter 2 true, .cClear 2, .rTrack 2, .rStart 2, .wBegin 2, .wRet 2])).map (fun s => outcome? s 2)
       = some (some (.ok 2 [])) := by decide
 
+/-! ### a cancellation that is waiting for its worker is never erased -/
+
+/-- the cancellation token is set for as long as some `cancel()` is blocked in `join()` -/
+def JoinFlag (s : St R) : Prop := s.joiner ≠ none → s.flag = true
+
+theorem joinFlag_init (post : Store → R) : JoinFlag (init post) := by
+  intro h; simp [init] at h
+
+theorem setOp_flag_joiner (s : St R) (r : Nat) (o : Op R) :
+    (setOp s r o).flag = s.flag ∧ (setOp s r o).joiner = s.joiner := ⟨rfl, rfl⟩
+
+theorem publish_flag_joiner (m : Mode) (s : St R) (g : Nat) (res : R) :
+    (publish m s g res).flag = s.flag ∧ (publish m s g res).joiner = s.joiner := by
+  unfold publish
+  cases m with
+  | asWritten => exact ⟨rfl, rfl⟩
+  | fixed => dsimp only; split <;> exact ⟨rfl, rfl⟩
+
+/-- the worker's own steps touch neither the token nor the launcher lock -/
+theorem joinFlag_worker {m : Mode} {post : Store → R} {s s' : St R} {l : Label} {r : Nat} (hj : JoinFlag s)
+    (hs : step m post s l = some s') (hl : l = .wBegin r ∨ l = .wRun r ∨ l = .wPublish r ∨ l = .wRet r) : JoinFlag s' := by
+  have key : s'.flag = s.flag ∧ s'.joiner = s.joiner := by
+    rcases hl with rfl | rfl | rfl | rfl <;>
+    · simp only [step] at hs
+      repeat' split at hs
+      all_goals first
+        | (simp only [Option.some.injEq] at hs; subst hs
+           first
+             | exact ⟨rfl, rfl⟩
+             | exact publish_flag_joiner _ _ _ _)
+        | (cases hs; done)
+  intro h
+  rw [key.1]; exact hj (by rw [← key.2]; exact h)
+
+/-- **A pending cancellation is never erased.** In every reachable state, whatever the interleaving of requests,
+cancellations and store mutations: while a `cancel()` (or the `cancel()` at the start of a `run()`) waits in `join()` for the
+tracked worker, the token it set is still set - no other thread's `clear()` can take it away, because the token is only
+cleared inside the critical section of the launcher lock that the waiting canceller holds. (With `clear()` after the lock
+was released - the code before the fix - the delayed `clear()` of an earlier operation erased it: the worker ran to the
+end and published although a cancellation directed at it had been issued and was still waiting.) -/
+theorem pending_cancel_not_erased {m : Mode} {post : Store → R} {ls : List Label} {s : St R}
+    (hr : runFrom m post (init post) ls = some s) : JoinFlag s := by
+  have hstep : ∀ (s s' : St R) (l : Label), JoinFlag s → step m post s l = some s' → JoinFlag s' := by
+    intro s s' l hj hs
+    have keep : ∀ {t : St R}, t.flag = s.flag → t.joiner = s.joiner → JoinFlag t := by
+      intro t hf hjn h; rw [hf]; exact hj (by rw [← hjn]; exact h)
+    cases l with
+    | set k v => simp only [step, Option.some.injEq] at hs; subst hs; exact keep rfl rfl
+    | del k => simp only [step, Option.some.injEq] at hs; subst hs; exact keep rfl rfl
+    | cEnter r isReq =>
+      simp only [step] at hs
+      split at hs
+      · rename_i hc
+        split at hs
+        · simp only [Option.some.injEq] at hs; subst hs; intro _; rfl
+        · simp only [Option.some.injEq] at hs; subst hs
+          intro h; exact absurd hc.2 h
+      · cases hs
+    | cJoin r =>
+      simp only [step] at hs
+      split at hs
+      · split at hs
+        · simp only [Option.some.injEq] at hs; subst hs; intro h; simp [setOp] at h
+        · cases hs
+      · cases hs
+    | cClear r =>
+      simp only [step] at hs
+      split at hs
+      · split at hs
+        · simp only [Option.some.injEq] at hs; subst hs; exact keep rfl rfl
+        · cases hs
+      · cases hs
+    | rTrack r =>
+      simp only [step] at hs
+      split at hs
+      · split at hs
+        · rename_i hc
+          simp only [Option.some.injEq] at hs; subst hs
+          intro h; simp [setOp] at h; exact absurd hc.2.2 h
+        · cases hs
+      · cases hs
+    | rStart r =>
+      simp only [step] at hs
+      split at hs
+      · split at hs
+        · simp only [Option.some.injEq] at hs; subst hs; exact keep rfl rfl
+        · cases hs
+      · cases hs
+    | wBegin r => exact joinFlag_worker hj hs (Or.inl rfl)
+    | wRun r => exact joinFlag_worker hj hs (Or.inr (Or.inl rfl))
+    | wPublish r => exact joinFlag_worker hj hs (Or.inr (Or.inr (Or.inl rfl)))
+    | wRet r => exact joinFlag_worker hj hs (Or.inr (Or.inr (Or.inr rfl)))
+  have : ∀ (ls : List Label) (s0 s1 : St R), JoinFlag s0 → runFrom m post s0 ls = some s1 → JoinFlag s1 := by
+    intro ls
+    induction ls with
+    | nil => intro s0 s1 h0 h; simp only [runFrom, Option.some.injEq] at h; subst h; exact h0
+    | cons l rest ih =>
+      intro s0 s1 h0 h
+      simp only [runFrom] at h
+      split at h
+      · rename_i s' hs'; exact ih s' s1 (hstep s0 s' l h0 hs') h
+      · cases h
+  exact this ls _ _ (joinFlag_init post) hr
+
+/-- the schedule on which the code before the fix lost a cancellation: with the repaired protocol the last label shown here
+(the delayed `cClear 0`) leaves the token set while operation 2 is still waiting -/
+example : (runFrom .fixed id (init id)
+    [.cEnter 0 true, .cEnter 1 true, .cClear 1, .rTrack 1, .rStart 1, .wBegin 1, .cEnter 2 false, .cClear 0]).map
+      (fun s => (s.joiner, s.flag)) = some (some 2, true) := by decide
+
 end SnootyVerif.C13
